@@ -26,6 +26,8 @@ type recEvent struct {
 	H    int          `json:"h,omitempty"`
 	Snap *snapContent `json:"snap,omitempty"`
 	Ok   *bool        `json:"ok,omitempty"`
+	T0   int          `json:"t0"` // monotonic ms since the start of the case (0 where timing is not observed)
+	T1   int          `json:"t1"`
 	// harness-only (ignored by the trace specification)
 	Path   int            `json:"path,omitempty"`
 	Layout map[string]any `json:"layout,omitempty"`
@@ -49,7 +51,10 @@ func (rc *recorder) emit(e recEvent) error {
 func randomHostVal(rnd *rand.Rand) Val {
 	switch rnd.Intn(3) {
 	case 0:
-		return Val{T: "n", N: rnd.Intn(9) - 2, D: []int{1, 1, 2}[rnd.Intn(3)]}
+		if rnd.Intn(3) == 0 {
+			return Val{T: "n", N: 2*rnd.Intn(5) - 3, D: 2} // odd numerator: already in lowest terms
+		}
+		return Val{T: "n", N: rnd.Intn(9) - 2, D: 1}
 	case 1:
 		return Val{T: "b", B: rnd.Intn(2) == 0}
 	}
